@@ -171,6 +171,19 @@ Theorem C01_program_returns_recover : forall c, only_pg c = true ->
 Proof. exact program_returns_recover. Qed.
 Print Assumptions C01_program_returns_recover.
 
+(* mcount_rstack_rehook must write the trampoline of the NEWEST frame of a tail-call chain into the shared slot: the
+   newest-first walk of the code before fix C01-9 left plthook_return under a -pg frame and killed the traced program *)
+Theorem C01_rehook_newest_first_refuted :
+  let fs := [mkF 1%nat (Tramp KP) KM false; mkF 1%nat (Real 100) KP false] in
+  let m := fun _ : nat => Real 0 in
+  rehook_all_legacy fs m 1%nat = Tramp KP /\
+  ret_through 3%nat 1%nat (mkSt (rehook_all_legacy fs m) fs) 0%nat = None /\
+  rehook_all fs m 1%nat = Tramp KM /\
+  ret_through 3%nat 1%nat (mkSt (rehook_all fs m) fs) 0%nat
+  = Some (mkSt (upd (upd (rehook_all fs m) 1%nat (Tramp KP)) 1%nat (Real 100)) [], 2%nat, Real 100).
+Proof. exact rehook_newest_first_refuted. Qed.
+Print Assumptions C01_rehook_newest_first_refuted.
+
 (* tracing is finished (finish trigger / signal in another thread) while frames are open: the exit hook
    that notices it - [exit_stop]: bookkeeping, mtd_dtor restores every slot and drops the shadow stack,
    the slot is re-read - hands back the real return address of the activation that owns slot d, also for
@@ -226,6 +239,16 @@ Theorem C01_arch_context_roundtrip : forall (level : nat) (x : vfile) (c0 : Z ->
   arch_roundtrip_now level x c0 clobber r i = x r i.
 Proof. exact arch_context_roundtrip. Qed.
 Print Assumptions C01_arch_context_roundtrip.
+
+(* the SSE control/status register MXCSR (rounding mode, sticky exception flags, masks) is saved first and restored
+   last by the generated pair: floating-point work of a script or of libc inside a hook is invisible to the traced program *)
+Theorem C01_mxcsr_preserved : forall csr clobber : Z, mxcsr_now csr clobber = csr.
+Proof. exact mxcsr_preserved. Qed.
+Print Assumptions C01_mxcsr_preserved.
+
+Theorem C01_mxcsr_legacy_refuted : exists csr clobber, mxcsr_roundtrip false csr clobber <> csr.
+Proof. exact mxcsr_legacy_refuted. Qed.
+Print Assumptions C01_mxcsr_legacy_refuted.
 
 (* the code before fix C01-6 (AVX pair on a machine with live zmm state) lost bits 256-511 *)
 Theorem C01_arch_context_avx_only_refuted :
